@@ -2,6 +2,7 @@ import Lean
 import Std.Do
 import Std.Tactic.Do
 import ErdosVerif.Model.Sim
+import ErdosVerif.Lemmas.SimAux
 /-!
 Run-level census of the simulator model, part 1: definitions.
 
